@@ -1,14 +1,358 @@
 /-
-STUB — replaced by the date/time layer (C09).  Signatures are fixed:
-`DateTime().convert/unconvert`, `Time().convert/unconvert` on `Val`.
+`ofxtools.Types.DateTime` / `ofxtools.Types.Time` (`convert`, `unconvert`), `format_datetime`,
+`DT_REGEX`, `TIME_REGEX`, and `ofxtools.utils.gmt_offset`.
+
+The two regexes are modelled as hand-written scanners.  Facts of Python's `re` that matter here:
+* `$` (no MULTILINE) matches at the end and before a final `\n`; nothing in either pattern can consume a
+  `\n` (`.` excludes it), so a match exists iff the text with *one* final `\n` removed matches exactly;
+* `[0-9]` is ASCII only, `\d` (in a `str` pattern) is every Unicode decimal digit (category Nd);
+* `(?P<gmt_offset_hours>[0-9-+]+)` is greedy and backtracks: longest run first, then shorter ones; for each
+  length the continuations are tried in the order  minutes+name, minutes, name, nothing;
+* `.` before the minutes is *any* character except `\n`;  `(:(?P<tz_name>.*))?` takes everything up to the
+  last `]` (the one followed by the end of the text).
 -/
 import OfxModel.Ofx.Value
+import OfxModel.Py.Cal
+import OfxModel.Generated.Tables
 
 namespace Ofx.DateTime
+open Ofx Ofx.Cal
 
-def dtConvert (_required : Bool) (_v : Val) : PyM Val := .error .other
-def dtUnconvert (_required : Bool) (_v : Val) : PyM Val := .error .other
-def tmConvert (_required : Bool) (_v : Val) : PyM Val := .error .other
-def tmUnconvert (_required : Bool) (_v : Val) : PyM Val := .error .other
+/-! ### character classes and `int()` -/
+
+/-- `[0-9]` -/
+def isAsciiDigit (c : Char) : Bool := '0' ≤ c && c ≤ '9'
+
+/-- code points of the zero of every Unicode decimal-digit block known to the running interpreter
+    (each block is ten consecutive code points 0..9); compared with `re`/`unicodedata` over all code
+    points on every run by the correspondence (`dt.ndzeros`). -/
+def ndZeros : List Nat :=
+  [48, 1632, 1776, 1984, 2406, 2534, 2662, 2790, 2918, 3046, 3174, 3302, 3430, 3558, 3664, 3792, 3872,
+   4160, 4240, 6112, 6160, 6470, 6608, 6784, 6800, 6992, 7088, 7232, 7248, 42528, 43216, 43264, 43472,
+   43504, 43600, 44016, 65296, 66720, 68912, 69734, 69872, 69942, 70096, 70384, 70736, 70864, 71248,
+   71360, 71472, 71904, 72016, 72784, 73040, 73120, 73552, 92768, 92864, 93008, 120782, 120792, 120802,
+   120812, 120822, 123200, 123632, 124144, 125264, 130032]
+
+/-- value of a character matched by `\d` (what `int()` makes of it) -/
+def uDigitVal (c : Char) : Option Nat :=
+  (ndZeros.find? (fun z => z ≤ c.toNat && c.toNat < z + 10)).map (fun z => c.toNat - z)
+
+/-- `\d` -/
+def isUDigit (c : Char) : Bool := (uDigitVal c).isSome
+
+/-- `[0-9-+]` -/
+def isHoursChar (c : Char) : Bool := isAsciiDigit c || c == '-' || c == '+'
+
+/-- value of a string of decimal digits, most significant first (`none` if a non-digit occurs) -/
+def digitsVal (val : Char → Option Nat) : Nat → Str → Option Nat
+  | acc, [] => some acc
+  | acc, c :: cs => match val c with
+    | some d => digitsVal val (10 * acc + d) cs
+    | none => none
+
+/-- `int(s)` for a non-empty string of ASCII digits -/
+def natOfAscii (s : Str) : Option Nat := digitsVal digitVal 0 s
+
+/-- `sys.get_int_max_str_digits()` -/
+def intMaxStrDigits : Nat := 4300
+
+/-- `int(s)` for `s` over `[0-9+-]`: optional sign, at least one digit, at most 4300 digits
+    (`none` = ValueError) -/
+def pyIntSigned (s : Str) : Option Int :=
+  let body (neg : Bool) (ds : Str) : Option Int :=
+    if ds.isEmpty || ds.length > intMaxStrDigits then none
+    else (natOfAscii ds).map (fun n => if neg then -(n : Int) else (n : Int))
+  match s with
+  | '-' :: ds => body true ds
+  | '+' :: ds => body false ds
+  | ds => body false ds
+
+/-! ### the regexes -/
+
+/-- named groups of `DT_REGEX` / `TIME_REGEX` (`none` = the group did not participate) -/
+structure Groups where
+  year : Option Str := none
+  month : Option Str := none
+  day : Option Str := none
+  hour : Option Str := none
+  minute : Option Str := none
+  second : Option Str := none
+  ms : Option Str := none
+  offH : Option Str := none
+  offM : Option Str := none
+  name : Option Str := none
+  deriving Repr, DecidableEq, Inhabited
+
+/-- remove one final `\n` (see header: the `$` rule) -/
+def stripFinalNewline (s : Str) : Str :=
+  match s.reverse with
+  | '\n' :: r => r.reverse
+  | _ => s
+
+/-- `.*` followed by `\]` and the end: the text after `:` must be `name ++ "]"` with no `\n` in `name` -/
+def splitName (t : Str) : Option Str :=
+  match t.reverse with
+  | ']' :: r => if r.contains '\n' then none else some r.reverse
+  | _ => none
+
+/-- `(:(?P<tz_name>.*))? \]` then the end -/
+def nameTail (r : Str) : Option (Option Str) :=
+  let viaName : Option (Option Str) := match r with
+    | ':' :: t => (splitName t).map some
+    | _ => none
+  match viaName with
+  | some x => some x
+  | none => if r = [']'] then some none else none
+
+/-- after the hours text `h`: `((.(?P<gmt_offset_minutes>\d\d))?(:(?P<tz_name>.*))?)? \]` then the end;
+    returns (hours, minutes, name) -/
+def offTail (h : Str) (rest : Str) : Option (Str × Option Str × Option Str) :=
+  let viaMin : Option (Str × Option Str × Option Str) := match rest with
+    | c :: d1 :: d2 :: r =>
+      if c != '\n' && isUDigit d1 && isUDigit d2 then (nameTail r).map (fun n => (h, some [d1, d2], n))
+      else none
+    | _ => none
+  match viaMin with
+  | some x => some x
+  | none => (nameTail rest).map (fun n => (h, none, n))
+
+/-- a zone name whose first two characters are decimal digits: after an offset without minutes the pattern
+    takes the `:` for the "any character" before the minutes and those digits for the minutes -/
+def nameLooksLikeMinutes : Str → Bool
+  | a :: b :: _ => isUDigit a && isUDigit b
+  | _ => false
+
+/-- `(?P<gmt_offset_hours>[0-9-+]+)` and what follows: lengths beyond `acc` longest first -/
+def hoursScan (acc : Str) : Str → Option (Str × Option Str × Option Str)
+  | [] => none
+  | c :: cs =>
+    if isHoursChar c then
+      match hoursScan (c :: acc) cs with
+      | some x => some x
+      | none => offTail (c :: acc).reverse cs
+    else none
+
+/-- `(\.(?P<millisecond>[0-9]{3}))? ( \[ … \] )?` then the end, after the seconds -/
+def afterSeconds (g : Groups) (r : Str) : Option Groups :=
+  let offPart (g : Groups) (r : Str) : Option Groups :=
+    match r with
+    | [] => some g
+    | '[' :: t => (hoursScan [] t).map (fun (h, m, n) => { g with offH := some h, offM := m, name := n })
+    | _ => none
+  match r with
+  | '.' :: a :: b :: c :: t =>
+    if isAsciiDigit a && isAsciiDigit b && isAsciiDigit c then offPart { g with ms := some [a, b, c] } t
+    else none
+  | r => offPart g r
+
+/-- `(?P<hour>([0-1][0-9])|(2[0-3]))` -/
+def hourOk (h1 h2 : Char) : Bool :=
+  (('0' ≤ h1 && h1 ≤ '1') && isAsciiDigit h2) || (h1 == '2' && '0' ≤ h2 && h2 ≤ '3')
+/-- `(?P<minute>[0-5][0-9])` -/
+def minOk (m1 m2 : Char) : Bool := ('0' ≤ m1 && m1 ≤ '5') && isAsciiDigit m2
+/-- `(?P<second>([0-5][0-9])|(60))` -/
+def secOk (s1 s2 : Char) : Bool := (('0' ≤ s1 && s1 ≤ '5') && isAsciiDigit s2) || (s1 == '6' && s2 == '0')
+
+def hmsOk (h1 h2 m1 m2 s1 s2 : Char) : Bool := hourOk h1 h2 && minOk m1 m2 && secOk s1 s2
+
+/-- the time part (shared by both patterns), everything up to the end -/
+def timePart (g : Groups) : Str → Option Groups
+  | h1 :: h2 :: m1 :: m2 :: s1 :: s2 :: r =>
+    if hmsOk h1 h2 m1 m2 s1 s2 then
+      afterSeconds { g with hour := some [h1, h2], minute := some [m1, m2], second := some [s1, s2] } r
+    else none
+  | _ => none
+
+/-- `(?P<month>(0[1-9])|(1[0-2]))` -/
+def monthOk (m1 m2 : Char) : Bool := (m1 == '0' && '1' ≤ m2 && m2 ≤ '9') || (m1 == '1' && '0' ≤ m2 && m2 ≤ '2')
+/-- `(?P<day>(0[1-9])|([1-2][0-9])|(3[0-1]))` -/
+def dayOk (d1 d2 : Char) : Bool :=
+  (d1 == '0' && '1' ≤ d2 && d2 ≤ '9') || (('1' ≤ d1 && d1 ≤ '2') && isAsciiDigit d2) || (d1 == '3' && '0' ≤ d2 && d2 ≤ '1')
+
+def mdOk (m1 m2 d1 d2 : Char) : Bool := monthOk m1 m2 && dayOk d1 d2
+
+/-- `DT_REGEX.match(s)` → groupdict -/
+def dtRegex (s : Str) : Option Groups :=
+  match stripFinalNewline s with
+  | y1 :: y2 :: y3 :: y4 :: m1 :: m2 :: d1 :: d2 :: r =>
+    if isAsciiDigit y1 && isAsciiDigit y2 && isAsciiDigit y3 && isAsciiDigit y4 && mdOk m1 m2 d1 d2 then
+      let g : Groups := { year := some [y1, y2, y3, y4], month := some [m1, m2], day := some [d1, d2] }
+      match r with
+      | [] => some g
+      | r => timePart g r
+    else none
+  | _ => none
+
+/-- `TIME_REGEX.match(s)` → groupdict -/
+def tmRegex (s : Str) : Option Groups := timePart {} (stripFinalNewline s)
+
+/-! ### offsets -/
+
+/-- `ofxtools.utils.gmt_offset(hours, minutes)` in minutes: the asserts, then
+    `math.copysign(60*abs(hours)+minutes, hours)` — the sign of the *integer* hours, so `-0` is `+` -/
+def gmtOffset (hours : Int) (minutes : Nat) : PyM Int :=
+  if hours < -12 ∨ hours > 14 then .error .assert
+  else
+    let mag : Int := 60 * hours.natAbs + minutes
+    .ok (if hours < 0 then -mag else mag)
+
+/-- `int(v or 0)` for a group matched by `\d\d` -/
+def intOfUDigits (v : Option Str) : PyM Nat :=
+  match v with
+  | none => .ok 0
+  | some s => match digitsVal uDigitVal 0 s with
+    | some n => .ok n
+    | none => .error .value
+
+/-- `DateTime.parse_gmt_offset(hours, minutes, tz_name)` in minutes -/
+def parseGmtOffset (tzs : List (Str × Int)) (hours minutes name : Option Str) : PyM Int := do
+  let h ← match hours with
+    | none => pure (0 : Int)
+    | some t => match pyIntSigned t with
+      | some h => pure h
+      | none =>
+        -- Interactive Brokers: `[-:EST]`; `tz_name not in TZS` (a `None` name is not in it)
+        match name with
+        | none => .error .value
+        | some n => match tzs.lookup n with
+          | some h => pure h
+          | none => .error .value
+  let m ← intOfUDigits minutes
+  gmtOffset h m
+
+/-- `int(v or 0)` for a group of ASCII digits -/
+def intOfAscii (v : Option Str) : PyM Nat :=
+  match v with
+  | none => .ok 0
+  | some s => match natOfAscii s with
+    | some n => .ok n
+    | none => .error .value
+
+def utcTz : Tz := ⟨0, some "UTC".toList⟩
+
+def fieldsOfDT (d : DT) : Fields := ⟨d.year, d.month, d.day, d.hour, d.minute, d.second, d.us⟩
+def dtOfFields (f : Fields) (tz : Option Tz) : DT :=
+  ⟨f.year, f.month, f.day, f.hour, f.minute, f.second, f.us, tz⟩
+
+/-- `DateTime._convert_str` -/
+def dtConvertStr (tzs : List (Str × Int)) (s : Str) : PyM Val := do
+  let g ← match dtRegex s with
+    | some g => pure g
+    | none => .error .spec
+  let offMin ← parseGmtOffset tzs g.offH g.offM g.name
+  let y ← intOfAscii g.year
+  let mo ← intOfAscii g.month
+  let d ← intOfAscii g.day
+  let h ← intOfAscii g.hour
+  let mi ← intOfAscii g.minute
+  let sec ← intOfAscii g.second
+  let ms ← intOfAscii g.ms
+  -- datetime.datetime(year=…, …, microsecond=1000*ms)
+  if !(validDate y mo d && validTime h mi sec (1000 * ms)) then .error .value
+  else
+    -- normalize_to_gmt: (value - gmt_offset).replace(tzinfo=UTC)
+    let f ← fromUs (toUs y mo d h mi sec (1000 * ms) - offMin * 60000000)
+    pure (.dt (dtOfFields f (some utcTz)))
+
+/-- `Time._convert_str` (→ `DateTime._convert_str` with `TIME_REGEX`, `datetime.time`,
+    `Time.normalize_to_gmt` through 1999-06-08) -/
+def tmConvertStr (tzs : List (Str × Int)) (s : Str) : PyM Val := do
+  let g ← match tmRegex s with
+    | some g => pure g
+    | none => .error .spec
+  let offMin ← parseGmtOffset tzs g.offH g.offM g.name
+  let h ← intOfAscii g.hour
+  let mi ← intOfAscii g.minute
+  let sec ← intOfAscii g.second
+  let ms ← intOfAscii g.ms
+  if !(validTime h mi sec (1000 * ms)) then .error .value
+  else
+    let (h', mi', s', us') := todOfUs (toUs 1999 6 8 h mi sec (1000 * ms) - offMin * 60000000)
+    pure (.tm ⟨h', mi', s', us', some utcTz⟩)
+
+/-! ### writing -/
+
+/-- `value.utcoffset()`: `None` for naive values; Python raises ValueError when a tzinfo returns an offset
+    that is not strictly between -24 h and 24 h -/
+def utcoffset (tz : Option Tz) : PyM (Option Int) :=
+  match tz with
+  | none => .ok none
+  | some t => if t.offUs ≤ -usPerDay ∨ t.offUs ≥ usPerDay then .error .value else .ok (some t.offUs)
+
+/-- the `+h[.mm][:name]` part of `format_datetime` -/
+def formatOffset (offUs : Int) (name : Option Str) : Str :=
+  let offsetMins : Int := offUs / 60000000            -- `utcoffset // timedelta(minutes=1)` (floor)
+  let a := offsetMins.natAbs
+  let hours := a / 60
+  let mins := a % 60
+  let sign := if offsetMins < 0 then '-' else '+'
+  let tz := sign :: pyStrNat hours
+  let tz := if mins != 0 then tz ++ '.' :: pad2 mins else tz
+  match name with
+  | some n => tz ++ ':' :: n
+  | none => tz
+
+/-- `format_datetime(format, value)`; `timeOnly` selects `"%H%M%S"` over `"%Y%m%d%H%M%S"` -/
+def formatDatetime (timeOnly : Bool) (f : Fields) (tz : Option Tz) : PyM Str := do
+  match ← utcoffset tz with
+  | none => .error .value
+  | some offUs =>
+    -- value + timedelta(microseconds=500); OverflowError past 9999-12-31
+    let b ← fromUs (toUs f.year f.month f.day f.hour f.minute f.second f.us + 500)
+    let ms := b.us / 1000
+    let name := match tz with | some t => t.name | none => none
+    let stamp := if timeOnly then strftimeHMS b else strftimeYmdHMS b
+    pure (stamp ++ '.' :: pad3 ms ++ '[' :: formatOffset offUs name ++ [']'])
+
+/-- `Element.enforce_required(None)` -/
+def enforceRequired (required : Bool) : PyM Val :=
+  if required then .error .spec else .ok .none
+
+/-! ### the four entry points (single dispatch on the value's type) -/
+
+def dtConvertWith (tzs : List (Str × Int)) (required : Bool) (v : Val) : PyM Val :=
+  match v with
+  | .none => enforceRequired required
+  | .str s => dtConvertStr tzs s
+  | .dt d => do
+    match ← utcoffset d.tz with
+    | none => .error .value
+    | some _ => pure (.dt d)
+  | _ => .error .type
+
+def dtUnconvert (required : Bool) (v : Val) : PyM Val :=
+  match v with
+  | .none => enforceRequired required
+  | .dt d => do
+    match ← utcoffset d.tz with
+    | none => .error .value
+    | some _ => pure (.str (← formatDatetime false (fieldsOfDT d) d.tz))
+  | _ => .error .type
+
+def tmConvertWith (tzs : List (Str × Int)) (required : Bool) (v : Val) : PyM Val :=
+  match v with
+  | .none => enforceRequired required
+  | .str s => tmConvertStr tzs s
+  | .tm t => do
+    match ← utcoffset t.tz with
+    | none => .error .value
+    | some _ => pure (.tm t)
+  | _ => .error .type
+
+def tmUnconvert (required : Bool) (v : Val) : PyM Val :=
+  match v with
+  | .none => enforceRequired required
+  | .tm t => do
+    match ← utcoffset t.tz with
+    | none => .error .value
+    | some _ =>
+      -- datetime(1999, 6, 8, value.hour, …, tzinfo=value.tzinfo)
+      pure (.str (← formatDatetime true ⟨1999, 6, 8, t.hour, t.minute, t.second, t.us⟩ t.tz))
+  | _ => .error .type
+
+/-- `DateTime(required=…).convert` with the `TZS` of the source -/
+def dtConvert (required : Bool) (v : Val) : PyM Val := dtConvertWith Ofx.Generated.tzs required v
+/-- `Time(required=…).convert` -/
+def tmConvert (required : Bool) (v : Val) : PyM Val := tmConvertWith Ofx.Generated.tzs required v
 
 end Ofx.DateTime
